@@ -82,6 +82,9 @@ pub struct Run<'o> {
     /// set by `dump_runs`: this run could not be made (pass B of a `compound`, which is not
     /// `Clone`); `out` is not to be compared then
     pub skipped: bool,
+    /// pass D: the steps are run on a `clone()` of the parsed view (the seven typed views are
+    /// `Clone`; kinds that are not run the steps on the object itself)
+    pub cloned: bool,
 }
 
 impl<'o> Run<'o> {
@@ -91,6 +94,17 @@ impl<'o> Run<'o> {
             rev,
             second,
             skipped: false,
+            cloned: false,
+        }
+    }
+
+    pub fn on_clone(out: &'o mut Out) -> Self {
+        Run {
+            out,
+            rev: false,
+            second: false,
+            skipped: false,
+            cloned: true,
         }
     }
 }
@@ -1473,7 +1487,25 @@ macro_rules! typed_runs {
         let r = guard(|| <$T>::parse($bytes));
         for run in $runs.iter_mut() {
             run.out.kv($pfx, "res", &pres(&r));
-            if let Some(Ok($p)) = &r {
+            if let Some(Ok(orig)) = &r {
+                // pass D: the same steps on `orig.clone()` (a hand-written `Clone` must give a
+                // view that answers every accessor like the one it was made from)
+                let the_clone: $T;
+                let $p: &$T = if run.cloned {
+                    match guard(|| maybe_clone!(orig)) {
+                        Some(Some(c)) => {
+                            the_clone = c;
+                            &the_clone
+                        }
+                        Some(None) => orig,
+                        None => {
+                            run.out.kv($pfx, "clone", "panic");
+                            continue;
+                        }
+                    }
+                } else {
+                    orig
+                };
                 let mut $st = Steps::new();
                 header_steps(&mut $st, $pfx, $p);
                 $st.kv($pfx, "padding", move |_| pad_val(|| $p.padding()));
@@ -1584,6 +1616,8 @@ pub struct PassAb {
     a: String,
     b: String,
     b_skipped: bool,
+    /// pass D (on a clone), typed kinds only
+    d: Option<String>,
 }
 
 /// PROTOCOL.md §4.1, `again_same`, first half: prints the view dump like `dump_kind` (pass A)
@@ -1596,7 +1630,20 @@ pub fn dump_kind_ab(out: &mut Out, pfx: &str, kind: Kind, bytes: &[u8]) -> Optio
     }
     let mut a = Out::new();
     let mut b = Out::new();
-    let b_skipped = {
+    let mut d = Out::new();
+    let typed = matches!(
+        kind,
+        Kind::App | Kind::Bye | Kind::Rr | Kind::Sr | Kind::Sdes | Kind::Tfb | Kind::Pfb
+    );
+    let b_skipped = if typed {
+        let mut runs = [
+            Run::new(&mut a, false, false),
+            Run::new(&mut b, false, true),
+            Run::on_clone(&mut d),
+        ];
+        dump_runs(pfx, kind, bytes, &mut runs);
+        runs[1].skipped
+    } else {
         let mut runs = [Run::new(&mut a, false, false), Run::new(&mut b, false, true)];
         dump_runs(pfx, kind, bytes, &mut runs);
         runs[1].skipped
@@ -1606,6 +1653,7 @@ pub fn dump_kind_ab(out: &mut Out, pfx: &str, kind: Kind, bytes: &[u8]) -> Optio
         a: a.buf,
         b: b.buf,
         b_skipped,
+        d: if typed { Some(d.buf) } else { None },
     })
 }
 
@@ -1617,7 +1665,12 @@ pub fn dump_kind_ab(out: &mut Out, pfx: &str, kind: Kind, bytes: &[u8]) -> Optio
 pub fn again_verdict(ab: PassAb, pfx: &str, kind: Kind, bytes: &[u8]) -> String {
     let mut c = Out::new();
     dump_runs(pfx, kind, bytes, &mut [Run::new(&mut c, true, false)]);
-    for (name, other, skipped) in [("B", &ab.b, ab.b_skipped), ("C", &c.buf, false)] {
+    let d_buf = ab.d.clone().unwrap_or_default();
+    for (name, other, skipped) in [
+        ("B", &ab.b, ab.b_skipped),
+        ("C", &c.buf, false),
+        ("D", &d_buf, ab.d.is_none()),
+    ] {
         if skipped {
             continue;
         }
